@@ -126,7 +126,7 @@ struct Ctx {
     // part 2 (oracles2.cpp)
     void c04(); void c10(); void c11(); void c12(); void c13();
     // part 3 (oracles3.cpp)
-    void c09(); void c15(); void c18(); void c19();
+    void c09(); void c15(); void c18(); void c19(); void c20x();
     // activity interval of each service generation: [first initiation, last completion] of its operations.
     // While two generations are active (a service winding down after async_disconnect/cancel()/destruction and its
     // successor already running) network events cannot be attributed to one of them.
